@@ -116,9 +116,13 @@ class uninstall(repo_interfaces.uninstall):
 
 class replace(install, uninstall, repo_interfaces.replace):
     def finalize_data(self):
-        # we just invoke install finalize_data, since it atomically
-        # transfers the new pkg in
+        # install finalize_data atomically transfers the new pkg in; if it
+        # landed under another file name (version bump, -r0 vs no revision)
+        # the tarball it replaces has to go, else both stay listed.
         install.finalize_data(self)
+        old_path = discern_loc(self.repo.base, self.old_pkg, self.repo.extension)
+        if old_path != self.final_path:
+            unlink_if_exists(old_path)
         return True
 
 
